@@ -761,7 +761,7 @@ def constants(ctx, data, B):
 # ------------------------------------------------------------------ entry points
 def run(ctx):
     ctx.rule = ("draw_gmm: K in 2..5, d in 1..4, n in 1..30, half-integer means, variances from {0.04..9} (1-D) / random PSD "
-                "incl. singular (n-D), dyadic / equal / general proportions; student: d 1..4, df in {0.5..30}; gstm: n 4..40; "
+                "incl. singular (n-D), dyadic / equal / general proportions; student: d 1..4, df in {0.1..30}; gstm: n 4..40; "
                 "celeux_one: n 1..30, p 1..6; celeux_two: n 1..30; plus a randomised catalogue of invalid parameter sets, "
                 "determinism runs and fixed-seed moment tests (n = 6000 quick / 20000 thorough). A case is non-trivial when at "
                 "least two components are drawn (n >= 2); distinct = distinct (function, parameters, seed).")
@@ -783,8 +783,8 @@ def run(ctx):
         case_gmm(ctx, B, rs, seed, int(rs.randint(1, 31)), loc, scale, pvals)
         d = int(rs.randint(1, 5))
         case_student(ctx, B, rs, seed, int(rs.randint(1, 26)), rs.randint(-6, 7, size=d) / 2.0, gen_cov(rs, d),
-                     float(rs.choice([0.5, 1, 2.5, 3, 10, 30])))
-        case_gstm(ctx, B, rs, seed, int(rs.randint(4, 41)), float(rs.choice([0.5, 1, 2, 3.7])), float(rs.choice([1, 2, 5])))
+                     float(rs.choice([0.1, 0.2, 0.5, 1, 2.5, 3, 10, 30])))      # small df: chi-square draws of 1e-20 are ordinary there
+        case_gstm(ctx, B, rs, seed, int(rs.randint(4, 41)), float(rs.choice([0.5, 1, 2, 3.7])), float(rs.choice([0.15, 1, 2, 5])))
         case_celeux_one(ctx, B, rs, seed, int(rs.randint(1, 31)), int(rs.randint(1, 7)), float(rs.choice([1.7, 0.3, 2.0])))
         case_celeux_two(ctx, B, rs, seed, int(rs.randint(1, 31)))
     for r in range(2 if quick else 40):
